@@ -301,10 +301,17 @@ class ExceptionFormatter:
     def __call__(self) -> str:
         # Format keyword arguments; consecutive arguments are indented
         # for readability
-        formatted_args = [
-            "{}: {}".format(name, self._value_repr(value))
-            for name, value in self._kwargs.items()
-        ]
+        formatted_args = []
+        for name, value in self._kwargs.items():
+            try:
+                string = "{}: {}".format(name, self._value_repr(value))
+            except Exception:
+                # An argument that cannot be shown (a dead weak
+                # reference proxy, an integer beyond the conversion
+                # limit) must not take the whole message with it.
+                string = "{}: <unprintable {}>".format(
+                    name, type(value).__name__)
+            formatted_args.append(string)
 
         for index, string in enumerate(formatted_args[1:]):
             formatted_args[index + 1] = " " * 15 + string
